@@ -101,7 +101,7 @@ def gen_text(g, knob, classes):
 
 
 def total_runs(tier):
-    return 7000 if tier == 'quick' else 1500000
+    return 7000 if tier == 'quick' else 200000
 
 
 def make_plan(i, master, tier):
